@@ -35,6 +35,13 @@ def serverParse (cfg : Config) (W : World) (parsed : Option PyVal) : Server.Pars
     (`Payload.dump`, `Payload.load`, `rpcLoad`). -/
 def useJsonclassGates : Bool × Bool := (true, true)
 
+/-- Every way out of `jsonrpc.loads(data, config)` by `return`, as (conditions on the path, returned expression): `None` for the
+    empty text, `load(jloads(data), config)` for every other one — `Payload.loads`.  The raw text is read by the emptiness
+    test and by the JSON backend, by nothing else: what is done with a text depends on the value it denotes only
+    (compared with the source on every run: `Generated.loadsReturns`). -/
+def loadsReturns : List (String × String) :=
+  [("empty(data)", "None"), ("not empty(data)", "load(jloads(data), config)")]
+
 /-- Which expression the call sites of `dump` / `dumps` / `load` / `loads` / `Fault(…)` of a (module, class) pass
     as `config`: the configuration of the proxy, of the batch, of the fault, of the server — never nothing (the
     default configuration has `use_jsonclass = True`).  In the models the configuration is an explicit argument of
